@@ -201,6 +201,55 @@ def check_cli(fmt, size, spec, use_filter, src_fmt='export'):
     return out, sum(1 for k in exp_parts if k) >= 2
 
 
+TRANS_VARIANTS = [['add_topnode', 'negra_mark_heads'], ['negra_mark_heads', 'binarize', 'add_topnode'],
+                  ['root_attach', 'negra_mark_heads', 'boyd_split', 'raising'], ['punctuation_root', 'add_topnode', 'root_attach']]
+
+
+def check_cli_trans(fmt, size, spec, trans):
+    """The parts taken in order must reproduce the UNSPLIT output of the same command line."""
+    mts = bank(size)
+    case = {'cli': True, 'trans': trans, 'fmt': fmt, 'size': size, 'spec': spec}
+    out = []
+
+    def bad(kind, detail):
+        out.append({'kind': kind, 'where': 'transform --split --trans', 'case': case,
+                    'detail': '%s [%d trees, --trans %s --split %s --dest-format %s]' % (detail, size, ' '.join(trans), spec, fmt),
+                    'what': '--split with transformations: ' + kind})
+    d = scratch()
+    src = os.path.join(d, 'c17t.export')
+    with open(src, 'w', encoding='utf-8') as f:
+        f.write(codecs.encode_export(mts))
+    whole = os.path.join(d, 'c17t.whole')
+    dest = os.path.join(d, 'c17t.out')
+    for old in glob.glob(dest + '*'):
+        os.unlink(old)
+    base = ['--src-format', 'export', '--dest-format', fmt, '--trans'] + trans
+    st0, _, _, exc0 = cli.run(['transform', src, whole] + base)
+    st1, _, _, exc1 = cli.run(['transform', src, dest] + base + ['--split', spec])
+    exp_parts = ref_split(spec, size)
+    if st0 != 0:
+        bad('cli-failed', 'unsplit run: exit status %r %s' % (st0, cli.describe(exc0)))
+        return out
+    if exp_parts is None:
+        if st1 == 0:
+            bad('not-rejected', 'specification accepted')
+        return out
+    if st1 != 0:
+        bad('cli-failed', 'split run: exit status %r %s' % (st1, cli.describe(exc1)))
+        return out
+    try:
+        want = decode_part(fmt, open(whole, encoding='utf-8').read())
+        got = []
+        for i in range(len(exp_parts)):
+            got.extend(decode_part(fmt, open('%s.%d' % (dest, i), encoding='utf-8').read()))
+    except (codecs.DecodeError, IOError) as e:
+        bad('part-not-a-document', str(e))
+        return out
+    if got != want:
+        bad('parts-differ-from-unsplit', 'concatenated parts %r, unsplit output %r' % (got, want))
+    return out
+
+
 def cli_specs(size):
     atoms = ['0#', '1#', '2#', '50%', '33%', 'rest', '100%', '%d#' % (size + 1)]
     specs = list(atoms)
@@ -212,6 +261,8 @@ def cli_specs(size):
 def check_case(case):
     with quiet():
         if case.get('cli'):
+            if case.get('trans'):
+                return check_cli_trans(case['fmt'], case['size'], case['spec'], case['trans'])
             return check_cli(case['fmt'], case['size'], case['spec'], case['filter'], case.get('src_fmt', 'export'))[0]
         return check_spec(case['spec'], case['size'])[0]
 
@@ -259,6 +310,11 @@ def run_chunk(chunk):
                     src_fmt = srcs[(si + use_filter) % len(srcs)] if chunk['size'] else 'export'
                     vs, nt = check_cli(chunk['fmt'], chunk['size'], spec, use_filter, src_fmt)
                     take(vs, nt, (chunk['fmt'], chunk['size'], spec, use_filter, src_fmt))
+            if chunk['size'] >= 2 and chunk['fmt'] in ('export', 'tigerxml', 'discobrackets'):
+                for trans in TRANS_VARIANTS:
+                    for spec2 in ('1#_rest', 'rest_1#', '50%_50%', '1#_1#_rest'):
+                        take(check_cli_trans(chunk['fmt'], chunk['size'], spec2, trans), True,
+                             (chunk['fmt'], chunk['size'], spec2, tuple(trans)))
             res.sample({'cli': 'treetools transform SRC DEST --dest-format %s --split %s' % (chunk['fmt'], spec),
                         'treebank_size': chunk['size']})
     return res
